@@ -7,9 +7,9 @@
 package pfcpiface
 
 import (
-	"os"
 	"encoding/json"
 	"fmt"
+	"os"
 	"strings"
 	"testing"
 
